@@ -304,6 +304,14 @@ func (t *twin) queries() {
 				cmp("nft-transfer/ClassTrace", "class-trace", x1, ex, y1, ey, nil)
 			}
 		}
+		if e3 == nil {
+			for _, tr := range a2.ClassTraces {
+				h := tr.Hash().String()
+				x1, ex := t.x.App.MtTransferKeeper.ClassTrace(cx, &mttransfer.QueryClassTraceRequest{Hash: h})
+				y1, ey := t.y.App.MtTransferKeeper.ClassTrace(cy, &mttransfer.QueryClassTraceRequest{Hash: h})
+				cmp("mt-transfer/ClassTrace", "class-trace", x1, ex, y1, ey, nil)
+			}
+		}
 	}
 }
 
